@@ -476,8 +476,16 @@ func FreeAddr(netw string) string {
 	return fmt.Sprintf("%s:%d", hostFor(netw), allocPort())
 }
 
+// StartAt is Start with an explicit listen host (e.g. "[::1%lo]") for a tcp network.
+func StartAt(cfg Cfg, hooks EngineHooks, netw, host string) (*Engine, error) {
+	cfg.Net = netw
+	return start(cfg, hooks, host)
+}
+
 // Start launches an engine for cfg.
-func Start(cfg Cfg, hooks EngineHooks) (*Engine, error) {
+func Start(cfg Cfg, hooks EngineHooks) (*Engine, error) { return start(cfg, hooks, "") }
+
+func start(cfg Cfg, hooks EngineHooks, hostOverride string) (*Engine, error) {
 	for try := 0; ; try++ {
 		e := &Engine{Cfg: cfg, Logger: &CaptureLogger{}, Log: &Log{}, booted: make(chan struct{}), done: make(chan error, 1)}
 		e.h = &handler{e: e, hooks: hooks}
@@ -513,6 +521,14 @@ func Start(cfg Cfg, hooks EngineHooks) (*Engine, error) {
 			e.ProtoAddr = "unix://" + dial
 		} else {
 			dial = FreeAddr(cfg.Net)
+			if hostOverride != "" {
+				for i := 0; i < 100; i++ {
+					dial = fmt.Sprintf("%s:%d", hostOverride, allocPort())
+					if portFree(cfg.Net, dial) {
+						break
+					}
+				}
+			}
 			e.ProtoAddr = cfg.Net + "://" + dial
 		}
 		e.Addr = dial
